@@ -79,7 +79,8 @@ class FrontEnd:
     @staticmethod
     def get_agent_class():
         """ return a string containing 'tv', 'mobile', or 'desktop' """
-        header = request.headers.get('User-Agent').lower()
+        # Not every client sends the header.
+        header = (request.headers.get('User-Agent') or '').lower()
         if header.find('android') != -1 or header.find('iphone') != -1:
             return 'mobile'
         if header.find('smarttv') != -1:
